@@ -455,7 +455,7 @@ def bounded_collocate(rng, tier):
         nprng = _np.random.RandomState(rng.randint(0, 2**31 - 1))
         n1, n2 = rng.choice([1, 2, 3, 8, 40]), rng.choice([1, 2, 3, 8, 40])
         centre = rng.choice([(0.0, 10.0), (52.0, 10.0), (89.7, 0.0), (-30.0, 179.9), (10.0, -179.95)])
-        spread = rng.choice([0.02, 0.2])
+        spread = rng.choice([0.0005, 0.02, 0.2])          # (0.0005 deg: every point collocates with every other -- all stored, found unsorted)
         a = _mk_dataset(nprng, rng, n1, centre, spread, t0, 120.0, 0.1)
         b = _mk_dataset(nprng, rng, n2, centre, spread, t0, 120.0, 0.1)
         km = rng.choice([1.0, 5.0, 20.0])
